@@ -54,8 +54,9 @@ Definition agrees (k : case) : bool :=
       match res_store r with
       | None => true
       | Some sr =>
+          let sm := master k in
           forallb (fun '(b, om, orr) =>
-                     rows_eqb (query dec_pf (master k) (unhexp b)) om && rows_eqb (query dec_pf sr (unhexp b)) orr)
+                     rows_eqb (query dec_pf sm (unhexp b)) om && rows_eqb (query dec_pf sr (unhexp b)) orr)
                   (k_q k)
       end
   end.
